@@ -460,6 +460,75 @@ func run(r *Rng, tier string, n int) {
 			}
 		}
 	}
+	// SVCB/HTTPS parameters from the wire in degenerate but possibly accepted encodings: every accepted
+	// record is its own duplicate and the duplicate of its copy, can be packed again, and two accepted
+	// records are duplicates exactly when their RDATA octets are equal
+	{
+		type pv struct {
+			name string
+			val  []byte // the parameter list after priority + target
+		}
+		par := func(key uint16, v ...byte) []byte {
+			return append([]byte{byte(key >> 8), byte(key), byte(len(v) >> 8), byte(len(v))}, v...)
+		}
+		cat := func(bs ...[]byte) []byte {
+			var o []byte
+			for _, b := range bs {
+				o = append(o, b...)
+			}
+			return o
+		}
+		groups := [][]pv{
+			{{"alpn-canonical", par(1, 2, 'h', '2')}, {"alpn-empty-id", par(1, 0)}, {"alpn-empty-id-then-h2", par(1, 0, 2, 'h', '2')}, {"alpn-h2-then-empty-id", par(1, 2, 'h', '2', 0)}, {"alpn-empty-value", par(1)}},
+			{{"mandatory-sorted", cat(par(0, 0, 1, 0, 3), par(1, 2, 'h', '2'), par(3, 1, 187))}, {"mandatory-unsorted", cat(par(0, 0, 3, 0, 1), par(1, 2, 'h', '2'), par(3, 1, 187))}, {"mandatory-repeated", cat(par(0, 0, 1, 0, 1), par(1, 2, 'h', '2'), par(3, 1, 187))}},
+			{{"port", par(3, 1, 187)}, {"port-short", par(3, 1)}, {"port-long", par(3, 1, 187, 0)}},
+			{{"ipv4hint", par(4, 192, 0, 2, 1)}, {"ipv4hint-empty", par(4)}, {"ipv4hint-5", par(4, 192, 0, 2, 1, 0)}},
+			{{"ipv6hint", par(6, 0x20, 1, 0xd, 0xb8, 0, 0, 0, 0, 0, 0, 0, 0, 0, 0, 0, 1)}, {"ipv6hint-mapped-v4", par(6, 0, 0, 0, 0, 0, 0, 0, 0, 0, 0, 0xff, 0xff, 192, 0, 2, 1)}},
+			{{"no-default-alpn", cat(par(1, 2, 'h', '2'), par(2))}, {"no-default-alpn-with-value", cat(par(1, 2, 'h', '2'), par(2, 0))}},
+			{{"keys-sorted", cat(par(3, 1, 187), par(5, 1, 2))}, {"keys-unsorted", cat(par(5, 1, 2), par(3, 1, 187))}, {"keys-repeated", cat(par(3, 1, 187), par(3, 1, 187))}},
+			{{"dohpath", par(7, '/', 'q')}, {"dohpath-empty", par(7)}, {"ohttp", par(8)}, {"ohttp-with-value", par(8, 1)}, {"local", par(65280, 1, 2, 3)}, {"local-empty", par(65280)}, {"reserved-key", par(65535)}},
+		}
+		for _, typ := range []uint16{dns.TypeSVCB, dns.TypeHTTPS} {
+			for _, g := range groups {
+				var rrs []dns.RR
+				var rds [][]byte
+				var names []string
+				for _, v := range g {
+					rd := append([]byte{0, 1, 0}, v.val...)
+					w := append([]byte{1, 's', 0, byte(typ >> 8), byte(typ), 0, 1, 0, 0, 0, 9, byte(len(rd) >> 8), byte(len(rd))}, rd...)
+					rr, _, err := dns.UnpackRR(w, 0)
+					if err != nil {
+						st["svcb_wire_rejected_"+v.name]++
+						continue
+					}
+					st["svcb_wire_accepted"]++
+					if got := isDup(rr, rr); got != "ok:true" {
+						Viol("C20/wire/svcb/"+v.name+"/not-own-duplicate", "a "+dns.TypeToString[typ]+" record taken from the wire is not a duplicate of itself: "+got, map[string]string{"rdata": Hx(rd)})
+					}
+					var cp dns.RR
+					if Protect(func() string { cp = dns.Copy(rr); return "ok" }) == "ok" {
+						if got := isDup(rr, cp); got != "ok:true" {
+							Viol("C20/wire/svcb/"+v.name+"/not-duplicate-of-copy", "a "+dns.TypeToString[typ]+" record taken from the wire is not a duplicate of its copy: "+got, map[string]string{"rdata": Hx(rd)})
+						}
+					}
+					buf := make([]byte, 512)
+					if _, err := dns.PackRR(rr, buf, 0, nil, false); err != nil {
+						Viol("C20/wire/svcb/"+v.name+"/not-packable", "a "+dns.TypeToString[typ]+" record taken from the wire cannot be packed again: "+err.Error(), map[string]string{"rdata": Hx(rd)})
+					}
+					rrs, rds, names = append(rrs, rr), append(rds, rd), append(names, v.name)
+				}
+				for i := range rrs {
+					for j := i + 1; j < len(rrs); j++ {
+						want := "ok:" + Btoa(Hx(rds[i]) == Hx(rds[j]))
+						got, back := isDup(rrs[i], rrs[j]), isDup(rrs[j], rrs[i])
+						if got != want || back != want {
+							Viol("C20/wire/svcb/"+names[i]+"-vs-"+names[j], dns.TypeToString[typ]+" records from the wire with different RDATA octets: IsDuplicate = "+got+" / "+back, map[string]string{"a": Hx(rds[i]), "b": Hx(rds[j])})
+						}
+					}
+				}
+			}
+		}
+	}
 	// Dedup when the SAME record value occurs more than once in the list (a cached record appended twice)
 	{
 		a, _ := dns.NewRR("same.example. 300 IN A 192.0.2.1")
